@@ -49,6 +49,9 @@ def layouts(tier="quick"):
     add("u8,str20term", [("A", U(8)), ("S", PType("S20_T", "String", StrEnc(Fixed(20), "UTF-8", None, "00")))])
     add("s64", [("Q", PType("S64_T", "Integer", IntEnc(64, "signed")))])
     add("u16le,u8", [("A", PType("U16LE_T", "Integer", IntEnc(16, "unsigned", True))), ("B", U(8))])
+    # a little-endian integer whose width is not a whole number of bytes, starting on a byte boundary: it takes its 12 bits, no more
+    add("u12le,u4", [("A", PType("U12LE_T", "Integer", IntEnc(12, "unsigned", True))), ("B", U(4))])
+    add("u8,s20le,u4", [("P", U(8)), ("A", PType("S20LE_T", "Integer", IntEnc(20, "twosComplement", True))), ("B", U(4))])
     for b in (0, 8, -8):
         add(f"LEN,BLOB(8LEN{b:+d})", [("LEN", U(8)), ("BLOB", PType(f"BL{b}_T", "Binary", BinEnc(Dyn("LEN", False, 8, b))))],
             prefix=lambda ln: format(ln, "08b"), uses_len=True)
